@@ -56,13 +56,16 @@ type c11Case struct {
 	// without ADD-PATH for what is sent)
 	AddPathDir int `json:"add_path_dir"`
 	// the identifier the route was received with differs from the one it is advertised with
-	RemoteIDs bool         `json:"remote_ids"`
-	ExtMsg    bool         `json:"ext_msg"`
-	Sets      []c11AttrSet `json:"sets"`
-	Changes   []c11Change  `json:"changes"`
-	Bulk      int          `json:"bulk"` // additionally announce this many distinct prefixes with set 0
-	BulkFam   int          `json:"bulk_fam"`
-	BulkLen   int          `json:"bulk_len"` // 0: uniform prefix length, 1: mixed lengths
+	RemoteIDs bool `json:"remote_ids"`
+	ExtMsg    bool `json:"ext_msg"`
+	// AS2: the session is to a peer without the 4-octet-AS capability: the sender rewrites every UPDATE into the
+	// RFC 6793 OLD-speaker form (AS_TRANS, AS4_PATH) before serialising it, which can be longer than what was packed
+	AS2     bool         `json:"as2,omitempty"`
+	Sets    []c11AttrSet `json:"sets"`
+	Changes []c11Change  `json:"changes"`
+	Bulk    int          `json:"bulk"` // additionally announce this many distinct prefixes with set 0
+	BulkFam int          `json:"bulk_fam"`
+	BulkLen int          `json:"bulk_len"` // 0: uniform prefix length, 1: mixed lengths
 }
 
 func drawC11(t *rapid.T) c11Case {
@@ -71,6 +74,7 @@ func drawC11(t *rapid.T) c11Case {
 		c.AddPathDir = rapid.SampledFrom([]int{0, 0, 1, 2}).Draw(t, "add_path_dir")
 	}
 	c.RemoteIDs = rapid.Bool().Draw(t, "remote_ids")
+	c.AS2 = rapid.IntRange(0, 3).Draw(t, "as2") == 0
 	ns := rapid.IntRange(1, 5).Draw(t, "nsets")
 	for i := 0; i < ns; i++ {
 		l := fmt.Sprintf("s%d", i)
@@ -95,7 +99,7 @@ func drawC11(t *rapid.T) c11Case {
 		}
 		s.SameKey = rapid.IntRange(0, 4).Draw(t, l+"samekey") == 0
 		s.Arrive = rapid.SampledFrom([]int{0, 0, 1, 2, 3, 3}).Draw(t, l+"arrive")
-		if s.Arrive == 1 && len(s.ASPath) > 0 && rapid.Bool().Draw(t, l+"wide") {
+		if (s.Arrive == 1 || c.AS2) && len(s.ASPath) > 0 && rapid.Bool().Draw(t, l+"wide") {
 			s.ASPath[len(s.ASPath)/2] = 4200000001
 		}
 		c.Sets = append(c.Sets, s)
@@ -303,7 +307,49 @@ type c11Val struct {
 }
 
 // single-route wire size of a path under the options (independent computation from real encodings)
+// c11OldForm is the harness's own RFC 6793 down-conversion of an attribute list (AS_SEQUENCE segments only, as generated).
+func c11OldForm(attrs []bgp.PathAttributeInterface) []bgp.PathAttributeInterface {
+	out := make([]bgp.PathAttributeInterface, 0, len(attrs)+1)
+	var as4 *bgp.PathAttributeAs4Path
+	for _, a := range attrs {
+		ap, ok := a.(*bgp.PathAttributeAsPath)
+		if !ok {
+			out = append(out, a)
+			continue
+		}
+		var two []bgp.AsPathParamInterface
+		var four []*bgp.As4PathParam
+		wide := false
+		for _, seg := range ap.Value {
+			var l []uint16
+			for _, v := range seg.GetAS() {
+				if v > 65535 {
+					wide = true
+					l = append(l, bgp.AS_TRANS)
+				} else {
+					l = append(l, uint16(v))
+				}
+			}
+			two = append(two, bgp.NewAsPathParam(seg.GetType(), l))
+			four = append(four, bgp.NewAs4PathParam(seg.GetType(), append([]uint32(nil), seg.GetAS()...)))
+		}
+		out = append(out, bgp.NewPathAttributeAsPath(two))
+		if wide {
+			as4 = bgp.NewPathAttributeAs4Path(four)
+		}
+	}
+	if as4 != nil {
+		out = append(out, as4)
+	}
+	return out
+}
+
+var c11AS2 bool // the current case's session is to an OLD speaker (set by runC11; cases run one at a time per process)
+
 func c11SingleSize(fam int, nlri bgp.NLRI, attrs []bgp.PathAttributeInterface, nhs []netip.Addr, addpath bool) int {
+	if c11AS2 {
+		attrs = c11OldForm(attrs)
+	}
 	size := 19 + 2 + 2
 	for _, a := range attrs {
 		b, _ := a.Serialize()
@@ -341,12 +387,13 @@ func c11SingleSize(fam int, nlri bgp.NLRI, attrs []bgp.PathAttributeInterface, n
 }
 
 func runC11(c c11Case, st *verifkit.Stats) *verifkit.Failure {
+	c11AS2 = c.AS2
 	limit := 4096
 	if c.ExtMsg {
 		limit = 65535
 	}
-	opt := &bgp.MarshallingOption{ExtendedMessage: c.ExtMsg}
-	ropt := &bgp.MarshallingOption{ExtendedMessage: c.ExtMsg} // the receiver's side of the same session
+	opt := &bgp.MarshallingOption{ExtendedMessage: c.ExtMsg, Use2ByteAS: c.AS2}
+	ropt := &bgp.MarshallingOption{ExtendedMessage: c.ExtMsg, Use2ByteAS: c.AS2} // the receiver's side of the same session
 	if c.AddPath {
 		opt.AddPath = map[bgp.Family]bgp.BGPAddPathMode{}
 		ropt.AddPath = map[bgp.Family]bgp.BGPAddPathMode{}
@@ -489,6 +536,11 @@ func runC11(c c11Case, st *verifkit.Stats) *verifkit.Failure {
 	skipped := 0
 	for mi, m := range msgs {
 		m.Header.Len = 0
+		if u, ok := m.Body.(*bgp.BGPUpdate); ok && c.AS2 {
+			// what the sending goroutine does for such a peer
+			UpdatePathAttrs2ByteAs(u)
+			UpdatePathAggregator2ByteAs(u)
+		}
 		wire, err := m.Serialize(opt)
 		if err != nil {
 			// allowed only if every route of the message is one that cannot fit
@@ -526,6 +578,13 @@ func runC11(c c11Case, st *verifkit.Stats) *verifkit.Failure {
 		if eor, f := u.IsEndOfRib(); eor {
 			gotEOR[f]++
 			continue
+		}
+		if c.AS2 {
+			// the receiver is a NEW speaker behind an OLD session: it reconstructs
+			UpdatePathAttrs4ByteAs(c14Logger, u)
+			if err := UpdatePathAggregator4ByteAs(u); err != nil {
+				return verifkit.Failf("unparsable-message", "message %d: reconstruction on the receiving side fails: %v", mi, err)
+			}
 		}
 		attrBytes := string(c11AttrBytes(u.PathAttributes))
 		for _, n := range u.WithdrawnRoutes {
@@ -620,6 +679,9 @@ func runC11(c c11Case, st *verifkit.Stats) *verifkit.Failure {
 	}
 	if c.ExtMsg {
 		st.Label("ext-msg")
+	}
+	if c.AS2 {
+		st.Label("as2-session")
 	}
 	for _, x := range c.Sets {
 		if x.Arrive != 0 {
